@@ -161,9 +161,21 @@ func obsFrameSet(o *Obs, fs *fileseq.FrameSet, qi, qv []int) {
 		o.Add("min", strconv.Itoa(mn))
 		o.Add("max", strconv.Itoa(mx))
 		norm = summarize(frames)
+		// the caller owns the returned slice: scribbling on it must not change later answers
+		keep := append([]int(nil), frames...)
+		for i := range frames {
+			frames[i] = -7777 - i
+		}
+		again := fs.Frames()
+		same := len(again) == len(keep)
+		for i := 0; same && i < len(keep); i++ {
+			same = again[i] == keep[i]
+		}
+		o.Add("own", showBool(same))
 	} else {
 		o.Add("min", "big")
 		o.Add("max", "big")
+		o.Add("own", "1")
 	}
 	o.Add("iter", norm)
 	addQueries(o, frameSetView{fs}, qi, qv)
